@@ -88,7 +88,13 @@ MAY_OPEN = {'convert_markup', 'convert_markup_impl', 'convert_comment'}
 
 LEAF_EXACT = '[leaf_text_exact C10 C08] r@ == txt({n}.text_s())'
 VERBATIM = '[verbatim_when_disabled C07] self.store_s().disabled_s({n}.span_s()) ==> r@ == txt({n}.full_text_s())'
+ROUTE = '[marked_expression_is_emitted_verbatim C07] self.store_s().disabled_s({n}.span_s()) && ast::expr_kind({n}.kind_s()) ==> r@ == txt({n}.full_text_s())'
 EXTRA = {
+    'convert_array_item': {'ensures': [ROUTE], 'serves': 'C07'},
+    'convert_dict_item': {'ensures': [ROUTE], 'serves': 'C07'},
+    'convert_param': {'ensures': [ROUTE], 'serves': 'C07'},
+    'convert_destructuring_item': {'ensures': [ROUTE], 'serves': 'C07'},
+    'convert_arg': {'ensures': [ROUTE], 'serves': 'C07'},
     'convert_expr_with_optional_paren': {'proof': ['reveal_strlit("("); reveal_strlit(")"); reveal_strlit("{"); reveal_strlit("}"); lemma_optional_paren_words_all(self.unit_s(), "("@, ")"@); lemma_optional_paren_words_all(self.unit_s(), "{"@, "}"@);']},
     'convert_expr': {'ensures': ['[result_is_a_function_of_context_and_node assumed C01] r@ == expr_doc_s(ctx, {n})', VERBATIM, '[leaf_kinds_exact C10 C08] !self.store_s().disabled_s({n}.span_s()) && is_exact_leaf_kind({n}.kind_s()) ==> r@ == txt({n}.text_s())'], 'serves': 'C07 C10'},
     'convert_expr_impl': {'ensures': ['[leaf_kinds_exact C10 C08] is_exact_leaf_kind({n}.kind_s()) ==> r@ == txt({n}.text_s())'], 'serves': 'C10',
@@ -122,6 +128,10 @@ EXTRA = {
 
 # flow-like converters: ordinal of the producer closure, name of its node parameter, string literals it emits
 FLOW = {
+    'convert_named': (0, 'child', [':']),
+    'convert_keyed': (0, 'child', [':']),
+    'convert_closure': (0, 'child', ['=', '=>']),
+    'convert_for_loop': (0, 'child', []),
     'convert_spread': (0, 'child', ['..']),
     'convert_unary': (0, 'child', []),
     'convert_binary': (1, 'child', []),
@@ -142,11 +152,15 @@ FLOW = {
 }
 
 
+# state that the producer closure captures mutably (rule R29: turned into an untracked cell)
+CELLS = {'convert_named': ['seen_name'], 'convert_keyed': ['seen_key'], 'convert_closure': ['look_ahead'], 'convert_for_loop': ['look_ahead']}
+
 # extra postconditions of a flow producer closure (appended to its `ensures`)
 FLOW_EXTRA = {
     'convert_math_delimited': [
         '[inner_whitespace_kept_exactly C09] node.kind_s() == SyntaxKind::Space ==> (fitem.0 matches Some(rp) && rp.doc@ == space_piece(node) && !rp.space_before && !rp.space_after)',
         '[math_body_tight C09] node.kind_s() == SyntaxKind::Math ==> (fitem.0 matches Some(rp) && !rp.space_before && !rp.space_after)',
+        '[marked_body_is_emitted_verbatim C07] node.kind_s() == SyntaxKind::Math && self.store_s().disabled_s(node.span_s()) ==> (fitem.0 matches Some(rp) && rp.doc@ == txt(node.full_text_s()))',
     ],
 }
 
@@ -155,7 +169,7 @@ FLOW_EXTRA = {
 # never proved at its definition, and reported as such in the evidence.
 W_PROVED = {
     # flow-based converters (closure contracts below)
-    'convert_spread', 'convert_unary', 'convert_let_binding', 'convert_destruct_assignment', 'convert_expr_flow', 'convert_set_rule',
+    'convert_named', 'convert_keyed', 'convert_spread', 'convert_unary', 'convert_let_binding', 'convert_destruct_assignment', 'convert_expr_flow', 'convert_set_rule',
     'convert_show_rule', 'convert_heading', 'convert_list_item_like', 'convert_math_attach', 'convert_math_frac', 'convert_math_root',
     'convert_import_item_path', 'convert_import_item_renamed', 'convert_binary',
     # wrappers
@@ -173,8 +187,17 @@ W_PROVED = {
     'convert_func_call', 'convert_func_call_plain', 'convert_func_call_args', 'convert_args', 'convert_arg',
 }
 # flow producers that convert every inner expression child with `self.convert_expr(ctx, expr)` where `ctx` is the closure's own parameter
-CTX_PASSING = {'convert_spread', 'convert_unary', 'convert_binary', 'convert_expr_flow', 'convert_set_rule', 'convert_show_rule',
+CTX_PASSING = {'convert_named', 'convert_keyed', 'convert_spread', 'convert_unary', 'convert_binary', 'convert_expr_flow', 'convert_set_rule', 'convert_show_rule',
                'convert_math_attach', 'convert_math_frac', 'convert_math_root'}
+
+# flow producers whose state is an untracked cell (R29): which child is emitted depends on the state, so "nothing is dropped" cannot
+# be stated per call; what holds in every state is that whatever is emitted for a child carries exactly that child's words
+# (nothing added, duplicated, replaced or taken from elsewhere)
+W_EMITS_ONLY = {'convert_closure', 'convert_for_loop'}
+
+# C07 routing: every flow producer hands an expression child that carries an `@typstyle off` mark to an entry point that emits it
+# verbatim.  Not claimed for producers whose choice of entry point depends on untracked state (R29).
+NO_VERBATIM_ROUTING = {'convert_closure', 'convert_for_loop', 'convert_math_delimited'}   # the latter: own clause in FLOW_EXTRA (only the Math body)
 
 # converters whose W clause is not about the whole node (hand-written in their own .vc file)
 W_OWN = {'convert_table', 'convert_parenthesized_args', 'convert_parenthesized_args_as_list', 'convert_additional_args'}
@@ -183,6 +206,8 @@ W_OWN = {'convert_table', 'convert_parenthesized_args', 'convert_parenthesized_a
 # and `#`, a node of the given kind has only children of the listed kinds.  The same table yields the spec function
 # `child_kind_ok` (prelude/grammar_gen.rs) and the domain of each flow producer closure.
 GRAMMAR = {
+    'Named': ['Colon', 'Underscore', 'Destructuring'],
+    'Keyed': ['Colon'],
     'Spread': ['Dots'],
     'Unary': ['Plus', 'Minus', 'Not'],
     'Binary': ['Plus', 'Minus', 'Star', 'Slash', 'And', 'Or', 'EqEq', 'ExclEq', 'Lt', 'LtEq', 'Gt', 'GtEq', 'Eq', 'PlusEq', 'HyphEq', 'StarEq', 'SlashEq', 'In', 'Not'],
@@ -208,6 +233,7 @@ GRAMMAR = {
 }
 # the kinds of the node each flow converter is called on
 FLOW_NODEKINDS = {
+    'convert_named': ['Named'], 'convert_keyed': ['Keyed'],
     'convert_spread': ['Spread'], 'convert_unary': ['Unary'], 'convert_binary': ['Binary'], 'convert_let_binding': ['LetBinding'],
     'convert_destruct_assignment': ['DestructAssignment'], 'convert_set_rule': ['SetRule'], 'convert_show_rule': ['ShowRule'],
     'convert_heading': ['Heading'], 'convert_list_item_like': ['ListItem', 'EnumItem', 'TermItem'],
@@ -354,6 +380,8 @@ def main():
             out.append('    - !is_comment_kind(%s.kind_s())' % cp)
             out.append('  ensures')
             out.append('    - [producer_docs_closed C04 C06 C12] fitem.0 matches Some(rp) ==> doc_closed(rp.doc@, self.unit_s())')
+            if fn not in NO_VERBATIM_ROUTING and not all(pk in NO_EXPR_PARENTS for pk in FLOW_NODEKINDS.get(fn, ['?'])):
+                out.append('    - [marked_expression_is_emitted_verbatim C07] self.store_s().disabled_s(%s.span_s()) && ast::expr_kind(%s.kind_s()) ==> (fitem.0 matches Some(rp) && rp.doc@ == txt(%s.full_text_s()))' % (cp, cp, cp))
             if fn in CTX_PASSING:
                 out.append('    - [uses_the_context_it_is_given C01] ast::expr_kind(%s.kind_s()) && is_inner_kind(%s.kind_s()) ==> (fitem.0 matches Some(rp) && rp.doc@ == expr_doc_s($1, $2))' % (cp, cp))
             if fn == 'convert_list_item_like':
@@ -362,8 +390,10 @@ def main():
                 noexpr = all(pk in NO_EXPR_PARENTS for pk in FLOW_NODEKINDS.get(fn, ['?']))
                 dom = ' || '.join([('trivia_child_kind(%s.kind_s())' if noexpr else 'common_child_kind(%s.kind_s())') % cp] + ['%s.kind_s() == SyntaxKind::%s' % (cp, k) for k in flow_domain(fn)])
                 out.append('    - [producer_words_preserved C01 C06] unmarked(self.store_s(), %s) && producer_kind(%s.kind_s()) && (%s) ==> flow_item_w(fitem, %s)' % (cp, cp, dom, cp))
+            if fn in W_EMITS_ONLY:
+                out.append('    - [producer_emits_only_the_words_of_its_child C01 C06] unmarked(self.store_s(), %s) && producer_kind(%s.kind_s()) ==> (fitem.0 matches Some(rp) ==> w_ok(rp.doc@, sig_leaves(%s)))' % (cp, cp, cp))
             wproof = ''
-            if fn in W_PROVED:
+            if fn in W_PROVED or fn in W_EMITS_ONLY:
                 alllits = list(lits) + ['=', ':', '..', '=>', '*', '.', '#', ',', ';', '_', '(', ')', '{', '}']
                 wproof = (' pf_sig(%s); pf_token_text(%s); pf_unmarked(self.store_s(), %s); reveal_with_fuel(words, 4); reveal_with_fuel(alt_ok, 4); reveal_with_fuel(sig_concat, 2);'
                           ' lemma_words_repeat_hardline(count_newlines_s(%s.text_s())); ' % (cp, cp, cp, cp)) + ' '.join('reveal_strlit("%s");' % l for l in alllits)
@@ -386,6 +416,7 @@ def main():
             out.append('    - %s.wf() && tree_wf(%s.node())' % (pn, pn))
             out.append('  ensures')
             out.append('    - [item_docs_closed C04 C06 C12] doc_closed(d@, self.unit_s())')
+            out.append('    - [marked_expression_is_emitted_verbatim C07] self.store_s().disabled_s(%s.node().span_s()) && ast::expr_kind(%s.node().kind_s()) ==> d@ == txt(%s.node().full_text_s())' % (pn, pn, pn))
             if fn in W_PROVED:
                 out.append('    - [item_words_preserved C01 C06] unmarked(self.store_s(), %s.node()) ==> wst(d@) && wd(d@) == sig_leaves(%s.node())' % (pn, pn))
         if fn in FLOW_EXTRA:
@@ -393,6 +424,8 @@ def main():
             for e in FLOW_EXTRA[fn]:
                 out.append('    - ' + e)
         out += ex.get('closures', [])
+        if fn in CELLS:
+            out.append('@cell ' + ' '.join(CELLS[fn]))
         out.append('@end')
         out.append('')
     here = os.path.dirname(os.path.abspath(__file__))
